@@ -56,6 +56,19 @@ def run_one(mu, tier, seed):
         res["check_s"] = round(time.time() - t0, 1)
         viol = [l for l in r.stdout.splitlines() if l.startswith("  violation detail") or l.startswith("VIOLATION")]
         res["detail"] = (viol[0][:200] if viol else r.stdout[-300:])
+        subs = set()
+        for l in r.stdout.splitlines():
+            if l.startswith("VIOLATION"):
+                base = os.path.basename(l.split("replay=")[-1])
+                if base.startswith("race-"):
+                    subs.add("race detector (" + base[5:].split(".")[0].rsplit("_", 1)[0] + ")")
+                elif base.startswith("fuzz-"):
+                    subs.add("native fuzz")
+                elif base.count(".") >= 3:
+                    subs.add(base.split(".")[1])
+                else:
+                    subs.add("replay:" + base)
+        res["reported_by"] = sorted(subs)
         caught = r.returncode == 1
         res["status"] = "caught" if caught else ("green" if r.returncode == 0 else "no-verdict")
         res["ok"] = (res["status"] == mu["expect"])
